@@ -11,9 +11,13 @@ MANIFEST = dict(
           "transcription of _str_atoms/__str__/__repr__; the parser model of C01.  Theorems (Props/C13.v, axiom-free): the "
           "normal form a printed formula parses back to (count-1 groups dissolved into their parent) keeps every atom "
           "count for any nesting depth; counts needing at most six digits print exactly and counts of any magnitude print "
-          "without exponent notation (kernel-evaluated sweeps whose bounds are in the statements).  The full round-trip "
-          "theorem parse(str s) = normalize s is proved only to the extent the C01 acceptance theorem covers the printed "
-          "strings; the rest is decided by the tie.  Tie: formulas from parsing, arithmetic, nested sequences and the "
+          "without exponent notation (kernel-evaluated sweeps whose bounds are in the statements).  C13_roundtrip: for every "
+          "printable structure of any nesting depth (computable predicate: positive counts whose printed text is a count "
+          "of the grammar, atoms the table names, no empty groups) the parser model applied to str(s) returns EXACTLY "
+          "normalize(s) and consumes the whole string (built on C01_accept_structure); C13_print_is_grammar: str(s) is "
+          "the rendering of a derivation tree for every structure; repr/named-formula statements.  That fmt_count always "
+          "yields a grammar count is a checked hypothesis (evaluated on every case of the tie), not a theorem.  "
+          "Tie: formulas from parsing, arithmetic, nested sequences and the "
           "mixture constructors with counts from 1e-8 to 1e11, all atom kinds incl. D/T and their ions: str/repr equal the "
           "model printer character for character; formula(str(f)).structure equals normalize(structure) (counts at the "
           "printed precision) and equals the parser model's result on the printed string."),
